@@ -301,3 +301,35 @@ def rule_pair_an(ctx):
                 ctx.holds("PAIRAN", key, f.where(), "loop over `%s` selects %s annotations" % (bv, kinds[bv]), nontrivial=True)
     ctx.floor("PAIRAN", 4, n, "(annotation loops bounded by an ANfileinfo count)")
     return n
+
+
+# ---------------------------------------------------------------------------------------------------------------------
+def rule_window_test(ctx):
+    """WINDOW (C05): a buffer that caches the N bytes starting at `base` covers the half-open range [base, base + N).  A test
+    of the shape `p < base || p OP base + N` (position outside the window: refill) must use `>=`; its negation
+    `p >= base && p OP base + N` must use `<`.  With `>` / `<=` the position base + N is served from a buffer that does not hold it."""
+    prog = ctx.prog
+    n = 0
+    for f in prog.lib_funcs():
+        for bid, i, s, x in f.nodes(True):
+            if not (x[0] == "bin" and x[1] in ("||", "&&")):
+                continue
+            l, r = strip(x[2]), strip(x[3])
+            if not (kind(l) == "bin" and kind(r) == "bin" and l[1] in ("<", "<=", ">", ">=") and r[1] in ("<", "<=", ">", ">=")):
+                continue
+            if render(strip(l[2])) != render(strip(r[2])):
+                continue
+            base = render(strip(l[3]))
+            hi = strip(r[3])
+            if not (kind(hi) == "bin" and hi[1] == "+" and base in (render(strip(hi[2])), render(strip(hi[3])))):
+                continue
+            n += 1
+            key = "WINDOW:%s:%s" % (f.name, render(strip(l[2]))[:30])
+            want = ("<", ">=") if x[1] == "||" else (">=", "<")
+            if (l[1], r[1]) == want:
+                ctx.holds("WINDOW", key, f.where(s.get("l")), "`%s` tests the half-open window [%s, %s)" % (render(x)[:90], base, render(hi)[:40]), nontrivial=True)
+            else:
+                ctx.violated("WINDOW", key, f.where(s.get("l")), "`%s` does not test the half-open window [%s, %s): it uses `%s`/`%s` where `%s`/`%s` is required, so one boundary position is served from "
+                             "a buffer that does not hold it (or is refetched needlessly while dirty data is pending)" % (render(x)[:100], base, render(hi)[:40], l[1], r[1], want[0], want[1]))
+    ctx.floor("WINDOW", 1, n, "(window membership tests)")
+    return n
